@@ -45,8 +45,9 @@ class LFO:
 
         self.is_started: bool = True
         self.is_paused: bool = False
-        self.current_value: float = 0.0
         self.current_time: float = 0.0
+        # value at phase 0 (the centre of the range), so that a read before the first tick is in [min, max]
+        self.current_value: float = scale_lin_lin(0.0, -1, 1, self.min, self.max)
 
         self.value_changed_callbacks: list[Callable] = []
         self.bindings: list[Binding] = []
